@@ -152,6 +152,50 @@ def coq_case(case, obs):
     return coq_lit((case['s'], o, (Nat(k), kept, n2, e)))
 
 
+def full_svd_len(spec):
+    """number of singular values of the block-sparse matrix described by `spec` before truncation: sum over the charge
+    sectors of min(rows, columns) (pure function of the generated input)"""
+    mod = spec['mod']
+    val = (lambda q: 0) if mod is None else ((lambda q: q) if mod == 1 else (lambda q: q % mod))
+    rows, cols = {}, {}
+    for (sizes, ch, _), d in zip(spec['legs'], (rows, cols)):
+        for sz, q in zip(sizes, ch):
+            d[val(q)] = d.get(val(q), 0) + sz
+    # legs have qconj (+1, -1): block (i, j) is allowed when q_i - q_j = qtotal
+    return sum(min(r, cols.get(val(q - spec['qtotal']), 0)) for q, r in rows.items())
+
+
+def gen_tiny_rank_case(rng, seed, i):
+    """svd_theta on a LARGE matrix of tiny numerical rank (rank r per charge sector + noise): the bond dimension shrinks by
+    more than a factor 100 (svd_theta's diagnostic 'catastrophic reduction' path) unless exactly chi_max values are kept"""
+    mod = [None, 2, 1][i % 3]
+    cplx = (i // 3) % 2 == 0
+    if mod is None:
+        rank = rng.choice([1, 1, 2, 3])
+        lo = 100 * rank + 1
+        legs = [[[rng.randint(lo, lo + 70)], [0], 1], [[rng.randint(lo, lo + 70)], [0], -1]]
+        qt = 0
+    else:
+        rank = 1
+        nb = 2 if mod == 2 else rng.choice([2, 2, 3])
+        ch = [0, 1] if mod == 2 else sorted(rng.sample(range(-2, 4), nb))
+        qt = rng.choice([0, 1]) if mod == 2 else rng.choice([0, 0, rng.choice(ch) - rng.choice(ch)])
+        ch2 = list(ch)
+        if rng.random() < 0.5:
+            rng.shuffle(ch2)                      # unsorted column leg
+        legs = [[[rng.randint(101, 150) for _ in ch], ch, 1], [[rng.randint(101, 150) for _ in ch2], ch2, -1]]
+    noise = rng.choice([0., 1e-9, 1e-9, 1e-12])
+    cut = rng.choice([(1e-6, None), (None, 1e-6), (1e-5, 1e-7), (1e-6, 'absent')] + ([('absent', 'absent')] if noise == 0. else []))
+    spec = {'mod': mod, 'legs': legs, 'qtotal': qt, 'complex': cplx, 'tiny_rank': {'rank': rank, 'noise': noise}}
+    if rng.random() < 0.5:
+        spec['labels'] = rng.choice([['vL', 'vR'], ['(vL.p0)', '(p1.vR)'], ['x', 'y']])
+    nsv = full_svd_len(spec)
+    opts = {'chi_max': rng.choice([None, None, 100, 100, 1000, max(1, nsv // 101), 1, 2]), 'svd_min': cut[0], 'trunc_cut': cut[1],
+            'chi_min': rng.choice(['absent', 'absent', None, 2]), 'degeneracy_tol': rng.choice(['absent', None, 1e-6])}
+    return {'seed': seed, 'opts': opts, 'eigh': False, 'spec': spec, 'tiny_rank': True,
+            'inner_labels': rng.choice([None, None, ['vR', 'vL'], ['r', 'l'], ['vR*', 'vL*']])}
+
+
 def main(ctx):
     rng = ctx.rng
     ctx.proof = common.check_proofs('C15', extra_targets=['Model/TruncBookCheck.vo'])
@@ -396,9 +440,18 @@ def main(ctx):
         dcases.append({'seed': ctx.seed * 100000 + i, 'opts': opts, 'eigh': (qt == 0 or mod is None) and rng.random() < 0.6,
                        'spec': {'mod': mod, 'legs': legs, 'qtotal': qt, 'complex': rng.random() < 0.4,
                                 'lowrank': rng.random() < 0.2}})
+        if rng.random() < 0.3:
+            dcases[-1]['inner_labels'] = rng.choice([['vR', 'vL'], ['r', 'l'], ['b', 'a']])
+            dcases[-1]['spec']['labels'] = rng.choice([['a', 'b'], ['vL', 'vR'], ['(vL.p)', '(q.vR)']])
+    nbig = ctx.pick(24, 150)
+    if not ctx.proof.ok:
+        nbig *= 2
+    dcases += [gen_tiny_rank_case(rng, ctx.seed * 100000 + 50000 + i, i) for i in range(nbig)]
     chunks = [dcases[i::common.NPROC] for i in range(common.NPROC)]
     res = common.run_impl_parallel('c15_impl.py', [{'kind': 'decomp', 'cases': ch} for ch in chunks if ch])
     nd = 0
+    dhist = {'tiny_rank_cases': 0, 'reduction_gt_100x': 0, 'reduction_gt_100x_not_chi_max': 0, 'with_charges': 0, 'complex': 0,
+             'warned': 0}
     for ci, (r, err) in enumerate(res):
         if err:
             ctx.fail('correspondence', 'decomp runner failed: ' + err[-400:], None)
@@ -431,6 +484,33 @@ def main(ctx):
                 probs.append('svd_theta: S*renormalization are not the largest singular values')
             if c['opts']['chi_max'] is not None and sv['chi'] > c['opts']['chi_max']:
                 probs.append('svd_theta: chi %d > chi_max' % sv['chi'])
+            # the factors themselves: documented labels, legs, total charge, dtype; the documented formula evaluates
+            if sv['U_labels'] != sv['want_U_labels'] or sv['VH_labels'] != sv['want_VH_labels']:
+                probs.append('svd_theta: labels of U, VH are %s, %s; documented %s, %s (outer labels of theta, inner_labels on the new bond)'
+                             % (sv['U_labels'], sv['VH_labels'], sv['want_U_labels'], sv['want_VH_labels']))
+            if sv['leg_problems']:
+                probs.append('svd_theta: legs of the factors: ' + '; '.join(sv['leg_problems']))
+            if not sv['qtotal_ok']:
+                probs.append('svd_theta: U.qtotal + VH.qtotal != theta.qtotal')
+            if 'rec_error' in sv:
+                probs.append('svd_theta: the documented tensordot(U.scale_axis(S*renormalization, 1), VH, axes=1) raises ' + sv['rec_error'])
+            elif abs(sv['rel_err2_npc'] - sv['eps']) > tol:
+                probs.append('svd_theta: squared relative error %.3e of tensordot(U.scale_axis(S*renormalization, 1), VH, axes=1) != reported eps %.3e'
+                             % (sv['rel_err2_npc'], sv['eps']))
+            if sv['dtypes'][0] != sv['dtypes'][2] or sv['dtypes'][1] != sv['dtypes'][2] or sv['dtypes'][3] != 'float64':
+                probs.append('svd_theta: dtypes of U, VH, theta, S = %s' % sv['dtypes'])
+            if not sv['theta_unchanged']:
+                probs.append('svd_theta modified its argument theta')
+            nfull = full_svd_len(c['spec'])
+            big = sv['chi'] * 100 < nfull
+            if c.get('tiny_rank'):
+                dhist['tiny_rank_cases'] += 1
+                dhist['reduction_gt_100x'] += 1 if big else 0
+                if big and (c['opts']['chi_max'] is None or sv['chi'] != c['opts']['chi_max']):
+                    dhist['reduction_gt_100x_not_chi_max'] += 1
+                    dhist['with_charges'] += 1 if c['spec']['mod'] is not None else 0
+                    dhist['complex'] += 1 if c['spec']['complex'] else 0
+                dhist['warned'] += 1 if any('reduction in chi' in w for w in sv['warnings']) else 0     # informational only
             if 'eigh' in x:
                 eg = x['eigh']
                 if abs(eg['disc_weight'] - eg['eps']) > tol:
@@ -438,9 +518,14 @@ def main(ctx):
                 if abs(eg['sumW_over_tr'] - 1) > 1e-10 or eg['resid'] > 1e-9 or eg['VdV'] > 1e-10:
                     probs.append('eigh_rho: W/V are not renormalised eigenpairs of rho (%s)' % eg)
             nd += 1
-            ctx.count('decomp', c, nontrivial=sv['eps'] > 1e-20, sample={'opts': c['opts'], 'spec': c['spec'], 'eps': sv['eps'], 'chi': sv['chi']})
+            ctx.count('decomp', c, nontrivial=sv['eps'] > 1e-20 or sv['chi'] < nfull,
+                      sample={'opts': c['opts'], 'spec': c['spec'], 'eps': sv['eps'], 'chi': sv['chi']})
             if probs:
                 ctx.fail('oracle', '; '.join(probs), {'stream': 'decomp', 'case': c, 'impl': x}, match_key='C15:decomp')
+    ctx.cov['decomp_tiny_rank'] = dhist
+    if dhist['tiny_rank_cases'] >= 12 and dhist['reduction_gt_100x_not_chi_max'] == 0:
+        ctx.fail('correspondence', 'decomp: no tiny-rank case shrank the bond by more than a factor 100 without hitting chi_max '
+                 '(generator lost the catastrophic-reduction path of svd_theta): %s' % dhist, None)
     # ---- root-input models svd_theta_book / eigh_rho_book on exact data (Model/TruncBookCheck.v);
     #      decompose_theta_qr_based directly and through QRBasedTEBDEngine (dense oracle)
     c15_streams.run(ctx, rng)
@@ -455,7 +540,10 @@ def main(ctx):
 RULE = ('truncate: random integer spectra (length 1-40; exact ties, zeros, sorted/unsorted, unnormalised) x full option lattice '
         '(absent / None / values incl. unsatisfiable); a case is non-trivial when the spectrum has >= 2 distinct values; '
         'distinct = distinct (spectrum, options).  book: svd_theta/eigh_rho on (rotated) diagonal matrices with planted integer spectra, '
-        'non-trivial when something was truncated.  decomp: random block-sparse matrices x options, non-trivial when something was truncated.  '
+        'non-trivial when something was truncated.  decomp: random block-sparse matrices x options (labels / inner_labels varied), plus large matrices (101-370 per charge sector) of tiny numerical rank '
+        '(rank 1-3 per sector + noise 0 / 1e-12 / 1e-9; no charge, Z2, U(1); real and complex) whose truncation shrinks the bond > 100x so that the catastrophic-reduction '
+        'diagnostics of svd_theta run (warning captured); observables: dense reconstruction error vs eps, the documented tensordot formula, labels, legs, qtotal, dtype, '
+        'theta unchanged; non-trivial when something was truncated.  '
         'svd-exact / eigh-exact: permutation-planted integer spectra with rational roots (Pythagorean tuples with a Pythagorean prefix, '
         'sum-of-squares-a-power-of-4 tuples, eigenvalue lists with kept/total a rational square; zeros; scaled by 2^-k) x options forcing the cut by '
         'chi_max / svd_min / trunc_cut, non-trivial when truncated or non-degenerate.  qr-direct / qr-engine: decompose_theta_qr_based on two-site '
